@@ -2,6 +2,9 @@
    Gen.MMData    = generator/lsp.json translated by lib/x_mm.py
    Gen.RustData  = generated_items : lib.rs as emitted by the rust plugin of the CURRENT tree (lib/x_rs.py runs it)
                    committed_items : packages/rust/lsprotocol/src/lib.rs as committed
+                   msg_hints       : UNTRUSTED (method, candidate struct name) pairs for the requests/notifications WITHOUT
+                                     typeName (empty for the committed metamodel); rust_ok only LOOKS there, every fact about
+                                     the struct is checked on the item found, and no two messages may share a struct
    LSP.Rust      = the checker rust_ok, its explain twin, and the proved specification theorem rust_ok_spec.
    The ground facts are decided by vm_compute over ALL items; what the boolean means is given by rust_ok_spec (a proof,
    for every metamodel and every item list), instantiated below. *)
@@ -10,18 +13,18 @@ From LSP Require Import Base MM Rust.
 From Gen Require Import MMData RustData.
 Open Scope string_scope.
 
-Theorem C07_generated : rust_ok mm generated_items = true.
+Theorem C07_generated : rust_ok mm generated_items msg_hints = true.
 Proof. vm_compute. reflexivity. Qed.
 
-Theorem C07_committed : rust_ok mm committed_items = true.
+Theorem C07_committed : rust_ok mm committed_items msg_hints = true.
 Proof. vm_compute. reflexivity. Qed.
 
 (* every structure / enumeration / alias / request / notification of the metamodel, every item of lib.rs *)
-Theorem C07_generated_spec : rust_spec mm generated_items.
-Proof. exact (rust_ok_spec mm generated_items C07_generated). Qed.
+Theorem C07_generated_spec : rust_spec mm generated_items msg_hints.
+Proof. exact (rust_ok_spec mm generated_items msg_hints C07_generated). Qed.
 
-Theorem C07_committed_spec : rust_spec mm committed_items.
-Proof. exact (rust_ok_spec mm committed_items C07_committed). Qed.
+Theorem C07_committed_spec : rust_spec mm committed_items msg_hints.
+Proof. exact (rust_ok_spec mm committed_items msg_hints C07_committed). Qed.
 
 (* the mapping FUNCTION rs_of is defined on every flattened property whose type is simple (LSP.Rust.simple_ty: no anonymous
    non-empty literal and none of the shapes the mapping does not cover); for the other properties the relation rs_rel
@@ -43,9 +46,9 @@ Definition struct_clause (items : list ritem) : Prop :=
        (is_option (unbox (f_ty f)) = true <-> p_opt p || null_admitting (p_type p) = true) /\
        f_gated f = p_proposed p).
 
-Lemma struct_clause_of_ok items : rust_ok mm items = true -> struct_clause items.
+Lemma struct_clause_of_ok items hints : rust_ok mm items hints = true -> struct_clause items.
 Proof.
-  intros H s Is. destruct (rust_ok_spec mm items H) as [_ [S _]].
+  intros H s Is. destruct (rust_ok_spec mm items hints H) as [_ [S _]].
   destruct (struct_spec_fields mm items s (S s Is)) as [camel [fs [I [N [Q F]]]]].
   exists camel, fs. repeat split; try assumption; try (apply Q).
   intros p Ip. destruct (F p Ip) as [f [If [Nm [Rl [O [R G]]]]]].
@@ -54,10 +57,10 @@ Proof.
 Qed.
 
 Theorem C07_generated_structs : struct_clause generated_items.
-Proof. exact (struct_clause_of_ok generated_items C07_generated). Qed.
+Proof. exact (struct_clause_of_ok generated_items msg_hints C07_generated). Qed.
 
 Theorem C07_committed_structs : struct_clause committed_items.
-Proof. exact (struct_clause_of_ok committed_items C07_committed). Qed.
+Proof. exact (struct_clause_of_ok committed_items msg_hints C07_committed). Qed.
 
 (* non-vacuity: the metamodel has structures with properties, the check list is long, and the checker does reject:
    the empty crate, and the crate with every Option<..> stripped from its struct fields *)
@@ -68,9 +71,9 @@ Definition strip_options (i : ritem) : ritem :=
   | _ => i end.
 Example C07_nonvacuous :
   existsb (fun s => negb (is_nil_b (flat mm (s_name s)))) (structures mm) = true /\
-  Nat.leb 1000 (length (all_checks mm generated_items)) = true /\
-  rust_ok mm [] = false /\
-  rust_ok mm (map strip_options generated_items) = false.
+  Nat.leb 1000 (length (all_checks mm generated_items msg_hints)) = true /\
+  rust_ok mm [] msg_hints = false /\
+  rust_ok mm (map strip_options generated_items) msg_hints = false.
 Proof. vm_compute. repeat split; reflexivity. Qed.
 
 Print Assumptions C07_generated.
@@ -83,4 +86,4 @@ Print Assumptions C07_committed_structs.
 Print Assumptions C07_nonvacuous.
 
 (* size of the ground obligation, recorded in the evidence file *)
-Eval vm_compute in (length (all_checks mm generated_items), length (all_checks mm committed_items)).
+Eval vm_compute in (length (all_checks mm generated_items msg_hints), length (all_checks mm committed_items msg_hints)).
